@@ -15,6 +15,12 @@ def setup() -> int:
     """Regenerate every Gen table from /repo, build the whole Coq development, scan for forbidden vernacular."""
     from harness import gen_tables
     gen_tables.generate_all()
+    # per-property generators of regenerated Coq files: harness/cXX_gen.py exposing generate()
+    import glob
+    for f in sorted(glob.glob(str(vlib.VERIF / "harness" / "c[0-9][0-9]_gen.py"))):
+        m = importlib.import_module("harness." + os.path.basename(f)[:-3])
+        if hasattr(m, "generate"):
+            m.generate()
     vlib.ensure_makefile()
     rc, out = vlib.sh(["make", f"-j{vlib.NCPU}"], 3600, cwd=vlib.COQ)
     print(out[-4000:])
